@@ -59,11 +59,16 @@ impl ChessMove {
     /// );
     /// ```
     pub fn from_san(board: &Board, move_text: &str) -> Result<ChessMove, Error> {
-        // Castles first...
-        if move_text == "O-O" || move_text == "O-O-O" {
+        // Castles first...  (with an optional check or checkmate suffix)
+        let castle_text = if move_text.ends_with('+') || move_text.ends_with('#') {
+            &move_text[..move_text.len() - 1]
+        } else {
+            move_text
+        };
+        if castle_text == "O-O" || castle_text == "O-O-O" {
             let rank = board.side_to_move().to_my_backrank();
             let source_file = File::E;
-            let dest_file = if move_text == "O-O" { File::G } else { File::C };
+            let dest_file = if castle_text == "O-O" { File::G } else { File::C };
 
             let m = ChessMove::new(
                 Square::make_square(rank, source_file),
